@@ -1270,3 +1270,10 @@ def _split_last(it, a, c):
     l = seq(a[0])
     if not l: return NONE()
     return SOME(Agg('tuple', [Ref(l, len(l) - 1), Ref([VecV(l[:-1])], 0)]))
+
+
+@model('std::ops::RangeInclusive::contains', 'std::ops::Range::contains')
+def _range_contains(it, a, c):
+    r = deref(a[0]); x = deref(a[1])
+    lo, hi = r.fields[0], r.fields[1]
+    return zand(x >= lo, (x <= hi) if 'Inclusive' in c.key else (x < hi))
